@@ -164,6 +164,8 @@ pub struct Shadow {
     /// with the model's checkpoints
     marks: Vec<(usize, usize)>,
     marks_stack: Vec<Vec<(usize, usize)>>,
+    /// the alternative the instruction being executed has to create: (pc it resumes at, position)
+    expect_push: Option<(usize, usize, usize)>,
     expected_cut: Option<usize>,
     failneg_target: Option<usize>,
     cut_seen: bool,
@@ -206,6 +208,7 @@ impl Shadow {
                 aux_tag_stack: Vec::new(),
                 marks: Vec::new(),
                 marks_stack: Vec::new(),
+                expect_push: None,
                 expected_cut: None,
                 failneg_target: None,
                 cut_seen: false,
@@ -339,6 +342,7 @@ impl Observer for Shadow {
         self.aux_tag_stack.clear();
         self.marks.clear();
         self.marks_stack.clear();
+        self.expect_push = None;
         self.expected_cut = None;
         self.failneg_target = None;
         self.cut_seen = false;
@@ -365,6 +369,36 @@ impl Observer for Shadow {
             }
         }
         if self.check_model {
+            if let Some((at, tpc, tix)) = self.expect_push.take() {
+                self.fail(
+                    "alternative-not-created",
+                    format!(
+                        "the branching instruction at pc {} went on without creating its alternative (resume at pc {}, position {}): a later backtrack cannot come back to this choice with the values of this moment",
+                        at, tpc, tix
+                    ),
+                );
+            }
+            let rc_of = |slot: usize| st.raw_saves().get(slot).copied().unwrap_or(0);
+            self.expect_push = match insn {
+                Insn::Split(_, y) => Some((pc, *y, ix)),
+                Insn::RepeatGr { lo, hi, next, repeat } => {
+                    let rc = rc_of(*repeat);
+                    if rc != *hi && rc >= *lo { Some((pc, *next, ix)) } else { None }
+                }
+                Insn::RepeatNg { lo, hi, repeat, .. } => {
+                    let rc = rc_of(*repeat);
+                    if rc != *hi && rc >= *lo { Some((pc, pc + 1, ix)) } else { None }
+                }
+                Insn::RepeatEpsilonGr { lo, next, repeat, check } => {
+                    let rc = rc_of(*repeat);
+                    if !(rc > *lo && rc_of(*check) == ix) && rc >= *lo { Some((pc, *next, ix)) } else { None }
+                }
+                Insn::RepeatEpsilonNg { lo, repeat, check, .. } => {
+                    let rc = rc_of(*repeat);
+                    if !(rc > *lo && rc_of(*check) == ix) && rc >= *lo { Some((pc, pc + 1, ix)) } else { None }
+                }
+                _ => None,
+            };
             if let Some(e) = self.expected_cut.take() {
                 // The previous instruction was an EndAtomic that popped its marker but never
                 // committed: the alternatives created inside the group are still alive.
@@ -521,6 +555,12 @@ impl Observer for Shadow {
             return;
         }
         if self.check_model {
+            if let Some((at, tpc, tix)) = self.expect_push.take() {
+                self.fail(
+                    "alternative-not-created",
+                    format!("the branching instruction at pc {} failed over to a backtrack without having created its alternative (resume at pc {}, position {})", at, tpc, tix),
+                );
+            }
             if let Some(t) = self.failneg_target.take() {
                 if st.depth() != t {
                     self.fail(
@@ -563,6 +603,11 @@ impl Observer for Shadow {
         }
         match op {
             StateOp::Push { pc, ix, ok } => {
+                if let Some((_, tpc, tix)) = self.expect_push {
+                    if !ok || (pc == tpc && ix == tix) {
+                        self.expect_push = None;
+                    }
+                }
                 let before = self.model.depth();
                 if before >= MODEL_DEPTH_CAP {
                     self.check_model = false;
